@@ -7,7 +7,7 @@ import oracles
 
 SAFE = ["Model/Exec.v", "Model/ExecInv.v", "Proofs/ExecSafe.v", "Proofs/ExecCor.v"]
 LIVE = SAFE + ["Proofs/ExecLive.v", "Proofs/ExecMeasure.v", "Proofs/ExecLiveCor.v",
-               "Model/StepExec.v", "Model/DepExec.v", "Model/LiveSpec.v", "Proofs/DepSafe.v", "Proofs/DepLive.v", "Proofs/DepLiveStep.v", "Proofs/DepLiveCor.v", "Proofs/DepMeasure.v",
+               "Model/StepExec.v", "Model/DepExec.v", "Model/LiveSpec.v", "Proofs/DepSafe.v", "Proofs/DepLive.v", "Proofs/DepLiveStep.v", "Proofs/DepLiveCor.v", "Proofs/DepMeasure.v", "Proofs/Fidelity.v", "Proofs/DepCeiling.v", "Proofs/DepMeasureStep.v",
                "Proofs/StepSafe.v", "Proofs/StepLive.v", "Proofs/StepLiveCor.v", "Proofs/Refute.v"]
 
 TABLE = {
